@@ -198,6 +198,8 @@ def m_all(it, seq):
 
 
 def m_abs(it, x):
+    if isinstance(x, PObj) and x.has_base and it.concrete(x.base):
+        x = x.base
     z = it.zint(x)
     if z is not None and not it.concrete(x):
         return SInt(z3.If(z >= 0, z, -z))
